@@ -164,6 +164,8 @@ def worker(prog, name):
                         add("error-without-handler", "NULL is returned with *errp = %s without invoking the constraint handler" % errp)
                     elif cnt == 1 and not nested and code is not None and errp is not None and not (code == errp or code == -errp):
                         add("code-mismatch", "the code passed to the handler (%s) differs from the code stored in *errp (%s)" % (code, errp))
+                    elif cnt == 1 and errp is None and eng.decide(("cmp", "eq", Lin.atom("&" + fn.pnames["errp"]["id"]), Lin.const(0)), st.facts) is not True:
+                        add("code-mismatch", "NULL is returned after a report but nothing was stored through errp on this path: the caller reads a stale code")
         elif conv == "bool":
             if rv is not None and rv[0] in ("b", "zb") and rv[1][0] == "c" and rv[1][1] and cnt == 1:
                 add("handler-on-success", "the handler is invoked but true is returned")
@@ -230,7 +232,7 @@ def selftest(ck):
     fdir = os.path.join(frontend.VERIF, "fixtures")
     prog = Program(frontend.load_sources([os.path.join(fdir, "c05.c")]))
     out = {}
-    want = {"fx_touch_first_s": ["touched-before-size-check"], "fx_good_s": [], "fx_twice_s": ["reported-twice"], "fx_silent_s": ["error-without-handler"], "fx_wrongcode_s": ["code-mismatch"],
+    want = {"fx_touch_first_s": ["touched-before-size-check"], "fx_good_s": [], "fx_twice_s": ["reported-twice"], "fx_silent_s": ["error-without-handler"], "fx_wrongcode_s": ["code-mismatch"], "fx_errp_forgotten_s": ["code-mismatch"],
             "fx_nested_quiet_s": [], "fx_nested_noisy_s": ["handler-on-success", "reported-twice"]}
     for n, w in want.items():
         r = worker(prog, n)
